@@ -502,9 +502,11 @@ def run_check(prop, tier, rule_fn, meta):
     """meta: dict(level, explanation, assumptions, trusted_base)"""
     t0 = time.time()
     seed = int(os.environ.get("VERIF_SEED", "0") or 0)
-    ev_path = os.path.join(VERIF, "evidence", "%s.json" % prop)
+    # runs against a scratch copy of the repository (VERIF_REPO: seed / refactor matrices) keep their evidence out of /verif/evidence
+    evdir = os.environ.get("VERIF_EVIDENCE_DIR") or (os.path.join(VERIF, "evidence") if not os.environ.get("VERIF_REPO") else "/tmp/verif-scratch-evidence")
+    ev_path = os.path.join(evdir, "%s.json" % prop)
     os.makedirs(os.path.dirname(ev_path), exist_ok=True)
-    replay_dir = os.path.join(VERIF, "evidence", "replay")
+    replay_dir = os.path.join(evdir, "replay")
     os.makedirs(replay_dir, exist_ok=True)
     ctx = None
     fatal = None
